@@ -10,7 +10,7 @@
    ufunc.reduce on the dense meaning [den x]. *)
 From Coq Require Import ZArith List Bool Permutation Sorting.Sorted QArith Qcanon.
 From Verif Require Import Py PyReduce S_reduce Shape COO COOP GCXS Convert NpReduce Reduce ReduceExt ReduceGcxs
-  ReduceLemmas ReduceKernelP ReduceP ReduceGcxsP ReduceExtP ReduceIndptrP.
+  ReduceLemmas ReduceKernelP ReduceP ReduceGcxsP ReduceExtP ReduceIndptrP ConvertU ReduceGcxsA.
 Import ListNotations.
 Open Scope Z_scope.
 
@@ -234,6 +234,21 @@ Theorem gcxs_recompress_is_coo_calc :
        Ok (k_data V k, k_counts V k, map (fun i => nth (Z.to_nat i) (k_rows V k) 0) (k_inv V k), k_ncols V k)).
 Proof. exact gcxs_recompress_eq_proof. Qed.
 Print Assumptions gcxs_recompress_is_coo_calc.
+
+(* The same for EVERY well-formed GCXS record of ndim >= 2, however it was built (Proofs/ReduceGcxsA.v): C05's surjectivity
+   theorem (ConvertU.gcxs_image / from_coo_tocoo) shows that it is the compressed form of its own tocoo(), which is
+   canonical, so the hypothesis "x = _from_coo c ca" above is discharged. *)
+Theorem gcxs_recompress_is_coo_calc_any :
+  forall (V : Type) (veqb : V -> V -> bool) (add : V -> V -> V) (op : V -> V -> V) (cast : V -> V)
+         (g : gcxs V) (axes : list Z),
+    gcxs_wfb g = true -> (2 <= length (g_shape g))%nat ->
+    let n := zlen (g_shape g) in
+    caxes_okb n (kept_axes n axes) = true ->
+    gcxs_recompress_calc V op cast g axes =
+      (k <- coo_reduce_calc V op cast (Some (kept_axes n (kept_axes n axes))) (gcxs_tocoo veqb add g) ;;
+       Ok (k_data V k, k_counts V k, map (fun i => nth (Z.to_nat i) (k_rows V k) 0) (k_inv V k), k_ncols V k)).
+Proof. exact gcxs_recompress_eq_any_proof. Qed.
+Print Assumptions gcxs_recompress_is_coo_calc_any.
 
 (* ------------------------------------------------------------------ nan-reductions
    nanreduce (Model/ReduceExt.v) = `_replace_nan(x, identity)` then reduce, for any value type with a
